@@ -108,6 +108,8 @@ MUTANTS = [
     # ---- C17
     ("C17", "quiet", "specs/openapi/examples.py", "                name: next(islice(cycle(parameter_variants), idx, None))", "                name: next(islice(cycle(parameter_variants), idx + 1, None))", "round-robin shifted by one: every example is still used verbatim (equivalent for C17)"),
     ("C17", "detect", "specs/openapi/examples.py", "                name: next(islice(cycle(parameter_variants), idx, None))", "                name: next(islice(cycle(parameter_variants), 0, None))", "always the first example of every parameter"),
+    ("C17", "detect", "specs/openapi/examples.py", "                if isinstance(schema, dict) and parameter.examples_field in schema:\n                    for value in schema[parameter.examples_field]:", "                if isinstance(schema, dict) and parameter.examples_field in schema:\n                    for value in schema[parameter.examples_field][:1]:", "only the first schema-level example of a parameter is collected"),
+    ("C17", "detect", "generation/hypothesis/builder.py", "            invalid_headers = dict(find_invalid_headers(example.headers))\n            if invalid_headers:\n                InvalidHeadersExampleMark.set(original_test, invalid_headers)\n                continue", "            invalid_headers = dict(find_invalid_headers(example.headers))\n            if invalid_headers:\n                InvalidHeadersExampleMark.set(original_test, invalid_headers)\n                break", "one unsendable example drops all later ones"),
     # ---- C18
     ("C18", "detect", CHK, "    if not (400 <= response.status_code < 500):", "    if not (400 <= response.status_code <= 500):", "ensure_resource_availability counts 500"),
     ("C18", "detect", "engine/recorder.py", "        interaction = self.interactions.get(case_id)\n        if interaction is None or interaction.response is None:\n            return None\n        return interaction.response", "        for interaction in self.interactions.values():\n            if interaction.response is not None:\n                return interaction.response\n        return None", "find_response returns the first recorded response, not this case's"),
